@@ -101,13 +101,14 @@ Normalised(a) ==
 
 \* ============================================================ the catalog ==
 \* Parameter kinds with fixed domains.  ext = declared external type.
-Kinds == {"D", "I", "S", "Si", "C", "B"}
-KType(k) == CASE k = "D" -> "DOUBLE" [] k = "I" -> "INTEGER" [] k \in {"S", "Si"} -> "DISCRETE" [] OTHER -> "CATEGORICAL"
+Kinds == {"D", "I", "S", "Si", "Sn", "C", "B"}
+KType(k) == CASE k = "D" -> "DOUBLE" [] k = "I" -> "INTEGER" [] k \in {"S", "Si", "Sn"} -> "DISCRETE" [] OTHER -> "CATEGORICAL"
 KLo(k) == CASE k = "D" -> 0 [] k = "I" -> -2 [] OTHER -> 0      \* half units: D = [0.0, 2.5], I = [-1, 2]
 KHi(k) == CASE k = "D" -> 5 [] k = "I" -> 4 [] OTHER -> 0
-KFeasH(k) == CASE k = "S" -> {1, 2, 4} [] k = "Si" -> {2, 4, 6} [] OTHER -> {}        \* S = {0.5, 1, 2}; Si = {1, 2, 3}
+KFeasH(k) == CASE k = "S" -> {1, 2, 4} [] k = "Si" -> {2, 4, 6} [] k = "Sn" -> {-6, -2, 4} [] OTHER -> {}
+                                   \* S = {0.5, 1, 2}; Si = {1, 2, 3}; Sn = {-3, -1, 2}: integer-valued with negative points
 KFeasS(k) == CASE k = "C" -> {"a", "b"} [] k = "B" -> {"False", "True"} [] OTHER -> {}
-KExt(k) == CASE k = "B" -> "BOOLEAN" [] k = "Si" -> "INTEGER" [] k = "S" -> "FLOAT" [] OTHER -> "INTERNAL"
+KExt(k) == CASE k = "B" -> "BOOLEAN" [] k \in {"Si", "Sn"} -> "INTEGER" [] k = "S" -> "FLOAT" [] OTHER -> "INTERNAL"
 
 \* membership of one typed value in one catalog parameter.  "U" = unspecified by the documentation
 \* (Python bool offered to a numeric or categorical parameter: a TODO in the source).
@@ -135,7 +136,7 @@ Contains(sp, asg) ==
 \* ====================================================== conditional trees ==
 \* A tree is a sequence of nodes [name, kind, parent (0 = root), pv (set of parent values as strings)].
 \* Parent values are written as strings: categorical value itself, or the half-unit integer as a string for numbers.
-HStr(h) == CASE h = -2 -> "-2" [] h = 0 -> "0" [] h = 1 -> "1" [] h = 2 -> "2" [] h = 4 -> "4" [] h = 6 -> "6" [] OTHER -> "?"
+HStr(h) == CASE h = -6 -> "-6" [] h = -2 -> "-2" [] h = 0 -> "0" [] h = 1 -> "1" [] h = 2 -> "2" [] h = 4 -> "4" [] h = 6 -> "6" [] OTHER -> "?"
 KValues(k) == IF KType(k) = "CATEGORICAL" THEN KFeasS(k)
               ELSE IF KType(k) = "DISCRETE" THEN {HStr(h) : h \in KFeasH(k)}
               ELSE IF KType(k) = "INTEGER" THEN {HStr(h) : h \in {-2, 0, 2, 4}}
@@ -148,7 +149,8 @@ Trees == {
   <<N("n", "Si", 0, {}), N("u", "S", 1, {"2", "4"}), N("w", "B", 2, {"1"}), N("q", "C", 1, {"6"})>>,   \* numeric parents, depth 3
   <<N("b", "B", 0, {}), N("c", "C", 1, {"True"}), N("d", "I", 2, {"b"}), N("e", "D", 0, {})>>,         \* boolean parent
   <<N("x0", "D", 0, {}), N("x1", "D", 0, {}), N("x2", "D", 0, {}), N("y", "C", 0, {})>>,              \* flat, indexed names x[0..2]
-  <<N("i", "I", 0, {}), N("ci", "D", 1, {"0", "2"}), N("z2", "C", 0, {})>>                             \* INTEGER parent, two parent values
+  <<N("i", "I", 0, {}), N("ci", "D", 1, {"0", "2"}), N("z2", "C", 0, {})>>,                            \* INTEGER parent, two parent values
+  <<N("g", "Sn", 0, {}), N("gc", "B", 1, {"-6", "4"}), N("g2", "Sn", 0, {})>>                          \* integer-valued discrete with negative points
 }
 \* chosen: function node index -> value string or "" (no value)
 Active(t, chosen, i) ==
@@ -171,14 +173,14 @@ TraverseStep(t, order, pending, dec) ==     \* dec = "" for skip, else the chose
 \* every stored parameter must be active, otherwise the trial is reported as an error ("ERR").
 PresentValue(k, v) ==       \* typed value presented for kind k and stored value string v
   CASE KExt(k) = "BOOLEAN" -> Boo(v = "True")
-    [] KExt(k) = "INTEGER" -> [py |-> "int", h |-> (CASE v = "2" -> 2 [] v = "4" -> 4 [] v = "6" -> 6 [] OTHER -> 0), sp |-> "fin", s |-> ""]
+    [] KExt(k) = "INTEGER" -> [py |-> "int", h |-> (CASE v = "2" -> 2 [] v = "4" -> 4 [] v = "6" -> 6 [] v = "-6" -> -6 [] v = "-2" -> -2 [] OTHER -> 0), sp |-> "fin", s |-> ""]
     [] KExt(k) = "FLOAT"   -> Flt(CASE v = "1" -> 1 [] v = "2" -> 2 [] v = "4" -> 4 [] OTHER -> 0)
     [] KType(k) = "CATEGORICAL" -> Str(v)
     [] KType(k) = "DOUBLE" -> Flt(CASE v = "0" -> 0 [] v = "2" -> 2 [] v = "4" -> 4 [] OTHER -> 0)
     [] OTHER -> [py |-> "num", h |-> (CASE v = "-2" -> -2 [] v = "0" -> 0 [] v = "2" -> 2 [] v = "4" -> 4 [] OTHER -> 0), sp |-> "fin", s |-> ""]
           \* INTEGER parameter with INTERNAL external type: value only, Python type unspecified ("num")
 
-StoredTrials(t) == UNION {[S -> {"a", "b", "True", "False", "0", "1", "2", "4", "6", "-2"}] : S \in SUBSET (DOMAIN t)}
+StoredTrials(t) == UNION {[S -> {"a", "b", "True", "False", "0", "1", "2", "4", "6", "-2", "-6"}] : S \in SUBSET (DOMAIN t)}
 WellTyped(t, tr) == \A i \in DOMAIN tr : tr[i] \in KValues(t[i].kind)
 Presentable(t, tr) == \A i \in DOMAIN tr : Active(t, [j \in DOMAIN t |-> IF j \in DOMAIN tr THEN tr[j] ELSE ""], i)
 
